@@ -33,8 +33,10 @@ Definition node_closed (s : state) (n : nid) (x : node) : bool :=
   | _ => forallb (notLhs s) (decl x)
   end.
 
+(** [closed]: all node records are [node_closed], and observers observe nodes that hold a value *)
 Definition closed (s : state) : bool :=
-  forallb (fun '(n, x) => node_closed s n x) (map_to_list (nodes s)).
+  forallb (fun '(n, x) => node_closed s n x) (map_to_list (nodes s))
+  && forallb (fun '(o, n) => notLhs s n) (map_to_list (obs s)).
 
 (** [templates_ok]: no bind template contains a parity cutoff.  ([evalT] gives no value to
     [TCut CParity]: a history-dependent cutoff created inside a bind is not a function of the
@@ -55,3 +57,524 @@ Definition templates_ok (s : state) : bool :=
 (** the explicit fuel bound: the number of registered nodes strictly lower than [n] *)
 Definition rank (s : state) (n : nid) : nat :=
   length (filter (fun m => (height (nd s m) < height (nd s n))%Z) (registered s)).
+
+(** * Small general facts *)
+Lemma forallb_elem_of {A} (f : A -> bool) l x : forallb f l = true -> x ∈ l -> f x = true.
+Proof. intros H Hx. rewrite forallb_forall in H. apply H. by apply elem_of_list_In. Qed.
+
+Lemma forallb_gmap {A} (f : nat * A -> bool) (m : gmap nat A) k x :
+  forallb f (map_to_list m) = true -> m !! k = Some x -> f (k, x) = true.
+Proof. intros H Hk. eapply forallb_elem_of; [exact H|]. by apply elem_of_map_to_list. Qed.
+
+Lemma filter_length_mono_lt {A} (P Q : A -> Prop) `{!forall x, Decision (P x)} `{!forall x, Decision (Q x)}
+      (l : list A) (a : A) :
+  (forall x, P x -> Q x) -> a ∈ l -> Q a -> ~ P a ->
+  (length (filter P l) < length (filter Q l))%nat.
+Proof.
+  intros HPQ. induction l as [|y l IH]; intros Ha Hq Hp.
+  - by apply elem_of_nil in Ha.
+  - assert (Hle : (length (filter P l) <= length (filter Q l))%nat).
+    { clear -HPQ. induction l as [|z l IH]; [done|].
+      rewrite !filter_cons. destruct (decide (P z)) as [Hz|Hz].
+      - destruct (decide (Q z)) as [|Hn]; [simpl; lia|]. destruct Hn; auto.
+      - destruct (decide (Q z)); simpl; lia. }
+    rewrite !filter_cons. apply elem_of_cons in Ha as [<-|Ha].
+    + destruct (decide (P a)); [done|]. destruct (decide (Q a)); [simpl; lia|done].
+    + specialize (IH Ha Hq Hp).
+      destruct (decide (P y)) as [Hy|Hy].
+      * destruct (decide (Q y)) as [|Hn]; [simpl; lia|]. destruct Hn; auto.
+      * destruct (decide (Q y)); simpl; lia.
+Qed.
+
+Lemma count_occ_n_pos x l : x ∈ l -> (0 < count_occ_n x l)%nat.
+Proof.
+  intros Hx. unfold count_occ_n.
+  assert (Hin : x ∈ filter (fun y => y = x) l) by (apply elem_of_list_filter; auto).
+  destruct (filter (fun y => y = x) l); [by apply elem_of_nil in Hin|simpl; lia].
+Qed.
+
+Lemma count_occ_n_pos_inv x l : (0 < count_occ_n x l)%nat -> x ∈ l.
+Proof.
+  unfold count_occ_n. intros H.
+  destruct (filter (fun y => y = x) l) as [|z l'] eqn:E; [simpl in H; lia|].
+  assert (Hz : z ∈ filter (fun y => y = x) l) by (rewrite E; left).
+  apply elem_of_list_filter in Hz as [-> Hz]. done.
+Qed.
+
+Lemma mapM_Some {A B} (f : A -> option B) (g : A -> B) l :
+  (forall a, a ∈ l -> f a = Some (g a)) -> mapM f l = Some (map g l).
+Proof.
+  induction l as [|a l IH]; intros H; [done|]. simpl.
+  rewrite (H a) by left. rewrite IH; [done|]. intros b Hb. apply H. by right.
+Qed.
+
+(** * Boolean equality of templates is equality *)
+Fixpoint texp_eqb_eq (a b : texp) {struct a} : texp_eqb a b = true -> a = b.
+Proof.
+  destruct a, b; simpl; intros H; try discriminate H.
+  - apply Z.eqb_eq in H. by subst.
+  - done.
+  - apply Nat.eqb_eq in H. by subst.
+  - apply andb_true_iff in H as [H1 H2]. apply bool_decide_eq_true in H1. subst.
+    f_equal. by apply texp_eqb_eq.
+  - apply andb_true_iff in H as [H H3]. apply andb_true_iff in H as [H1 H2].
+    apply bool_decide_eq_true in H1. subst. f_equal; by apply texp_eqb_eq.
+  - apply andb_true_iff in H as [H1 H2]. apply bool_decide_eq_true in H1. subst.
+    f_equal. by apply texp_eqb_eq.
+  - apply andb_true_iff in H as [H1 H2]. f_equal; [|by apply texp_eqb_eq].
+    clear H2. revert cases0 H1.
+    induction cases as [|x l IH]; intros [|y l'] H; try discriminate H; [done|].
+    apply andb_true_iff in H as [H1 H2]. f_equal; [by apply texp_eqb_eq|by apply IH].
+  - done.
+Qed.
+
+Lemma texps_eqb_eq l l' : texps_eqb l l' = true -> l = l'.
+Proof.
+  revert l'. induction l as [|x l IH]; intros [|y l'] H; try discriminate H; [done|].
+  simpl in H. apply andb_true_iff in H as [H1 H2]. f_equal; [by apply texp_eqb_eq|by apply IH].
+Qed.
+
+Lemma parity_free_select cases x : forallb parity_free cases = true -> parity_free (select cases x) = true.
+Proof.
+  intros H. unfold select.
+  destruct (nth_in_or_default (Z.to_nat (x mod Z.of_nat (length cases))) cases TNil) as [Hin| ->]; [|done].
+  rewrite forallb_forall in H. by apply H.
+Qed.
+
+(** * The clauses of [wfb] *)
+Lemma wfb_clauses s : wfb s = true ->
+  edges_symmetric s = true /\ registered_iff_necessary s = true /\ parents_are_declared s = true
+  /\ heights_ordered s = true /\ observers_ok s = true /\ binds_ok s = true.
+Proof.
+  unfold wfb, codes. intros H. apply bool_decide_eq_true in H.
+  destruct (edges_symmetric s); [|discriminate H].
+  destruct (unregistered_zeroed s); [|discriminate H].
+  destruct (registered_iff_necessary s); [|discriminate H].
+  destruct (parents_are_declared s); [|discriminate H].
+  destruct (heights_ordered s); [|discriminate H].
+  destruct (queued_ok s); [|discriminate H].
+  destruct (counts_ok s); [|discriminate H].
+  destruct (transients_empty s); [|discriminate H].
+  destruct (observers_ok s); [|discriminate H].
+  destruct (binds_ok s); [|discriminate H].
+  done.
+Qed.
+
+Lemma nd_lookup s n x : nodes s !! n = Some x -> nd s n = x.
+Proof. unfold nd. by intros ->. Qed.
+
+Lemma nd_none s n : nodes s !! n = None -> nd s n = dummy.
+Proof. unfold nd. by intros ->. Qed.
+
+Lemma valueOf_not_always s n : nkind (nd s n) <> KAlways -> valueOf s n = value (nd s n).
+Proof. unfold valueOf. simpl. intros H. destruct (nkind (nd s n)); try done. Qed.
+
+(** * Theorem A *)
+Section TheoremA.
+  Variable s : state.
+  Hypothesis Hwf : wfb s = true.
+  Hypothesis Hcl : closed s = true.
+  Hypothesis Htp : templates_ok s = true.
+  Hypothesis Hco : consistent s = true.
+
+  Definition R (n : nid) : Prop := inGraph (nd s n) = true.
+
+  Lemma closed_node n x : nodes s !! n = Some x -> node_closed s n x = true.
+  Proof.
+    intros H. unfold closed in Hcl. apply andb_true_iff in Hcl as [H1 _].
+    exact (forallb_gmap _ _ _ _ H1 H).
+  Qed.
+
+  Lemma some_lt n : is_Some (nodes s !! n) -> (n < next s)%nat.
+  Proof.
+    intros [x Hx]. pose proof (closed_node _ _ Hx) as H. unfold node_closed in H.
+    apply andb_true_iff in H as [H _]. by apply Nat.ltb_lt in H.
+  Qed.
+
+  Lemma R_some n : R n -> is_Some (nodes s !! n).
+  Proof.
+    unfold R. intros H. destruct (nodes s !! n) eqn:E; [eauto|].
+    rewrite (nd_none _ _ E) in H. discriminate H.
+  Qed.
+
+  Lemma some_all n : is_Some (nodes s !! n) -> n ∈ allNodes s.
+  Proof.
+    intros H. unfold allNodes. apply elem_of_list_filter. split; [done|].
+    apply elem_of_seq. pose proof (some_lt _ H). lia.
+  Qed.
+
+  Lemma R_all n : R n -> n ∈ allNodes s.
+  Proof. intros H. by apply some_all, R_some. Qed.
+
+  Lemma R_registered n : R n -> n ∈ registered s.
+  Proof.
+    intros H. unfold registered. apply elem_of_list_filter. split; [done|].
+    apply elem_of_seq. pose proof (some_lt _ (R_some _ H)). lia.
+  Qed.
+
+  Lemma R_cons n : R n -> valid (nd s n) = true /\ node_consistent s n = true.
+  Proof.
+    intros H. unfold consistent in Hco.
+    pose proof (forallb_elem_of _ _ _ Hco (R_registered _ H)) as H1.
+    by apply andb_true_iff in H1.
+  Qed.
+
+  Lemma R_parents_decl n : R n -> parents (nd s n) ≡ₚ decl (nd s n).
+  Proof.
+    intros H. destruct (wfb_clauses _ Hwf) as (_ & _ & Hpd & _).
+    pose proof (forallb_elem_of _ _ _ Hpd (R_all _ H)) as H1. cbv beta zeta in H1.
+    unfold R in H. rewrite H in H1. simpl in H1.
+    destruct (R_cons _ H) as [Hv _]. rewrite Hv in H1. apply bool_decide_eq_true in H1.
+    unfold sortn in H1.
+    rewrite <- (merge_sort_Permutation Nat.le (parents (nd s n))).
+    rewrite <- (merge_sort_Permutation Nat.le (decl (nd s n))). by rewrite H1.
+  Qed.
+
+  Lemma parent_R n a : R n -> a ∈ parents (nd s n) -> R a /\ (height (nd s a) < height (nd s n))%Z.
+  Proof.
+    intros Hn Ha. destruct (wfb_clauses _ Hwf) as (Hes & Hrn & _ & Hho & _).
+    pose proof (forallb_elem_of _ _ _ Hes (R_all _ Hn)) as H1. cbv beta in H1.
+    apply andb_true_iff in H1 as [H1 _].
+    pose proof (forallb_elem_of _ _ _ H1 Ha) as H2. cbv beta in H2. apply Nat.eqb_eq in H2.
+    pose proof (count_occ_n_pos _ _ Ha) as Hpos. rewrite H2 in Hpos.
+    apply count_occ_n_pos_inv in Hpos.
+    assert (Hsome : is_Some (nodes s !! a)).
+    { destruct (nodes s !! a) eqn:E; [eauto|]. rewrite (nd_none _ _ E) in Hpos.
+      simpl in Hpos. by apply elem_of_nil in Hpos. }
+    pose proof (forallb_elem_of _ _ _ Hrn (some_all _ Hsome)) as H3. cbv beta in H3.
+    assert (Hnec : isNecessary (nd s a) = true).
+    { unfold isNecessary. destruct (children (nd s a)) eqn:E; [by apply elem_of_nil in Hpos|].
+      rewrite bool_decide_eq_false_2 by done. simpl. by rewrite orb_true_r. }
+    rewrite Hnec in H3. split.
+    - unfold R. by destruct (inGraph (nd s a)).
+    - pose proof (forallb_elem_of _ _ _ Hho (R_all _ Hn)) as H4. cbv beta zeta in H4.
+      unfold R in Hn. rewrite Hn in H4. simpl in H4.
+      apply andb_true_iff in H4 as [H4 _]. apply andb_true_iff in H4 as [_ H4].
+      pose proof (forallb_elem_of _ _ _ H4 Ha) as H5. cbv beta in H5. by apply Z.ltb_lt in H5.
+  Qed.
+
+  Lemma rank_lt n a : R n -> R a -> (height (nd s a) < height (nd s n))%Z -> (rank s a < rank s n)%nat.
+  Proof.
+    intros Hn Ha Hlt. unfold rank.
+    apply (filter_length_mono_lt _ _ _ a); [intros; lia|by apply R_registered|done|lia].
+  Qed.
+
+  Lemma rank_bound n : R n -> (rank s n + 1 <= next s)%nat.
+  Proof.
+    intros Hn. unfold rank.
+    pose proof (filter_length_lt (fun m => (height (nd s m) < height (nd s n))%Z) (registered s) n
+                  (R_registered _ Hn)) as H.
+    assert (Hl : (length (registered s) <= next s)%nat).
+    { unfold registered. etrans; [apply filter_length|]. by rewrite seq_length. }
+    assert (~ (height (nd s n) < height (nd s n))%Z) by lia. specialize (H H0). lia.
+  Qed.
+
+  Lemma decl_R n a : R n -> a ∈ decl (nd s n) -> R a /\ (rank s a < rank s n)%nat.
+  Proof.
+    intros Hn Ha. rewrite <- (R_parents_decl _ Hn) in Ha.
+    destruct (parent_R _ _ Hn Ha) as [H1 H2]. split; [done|]. by apply rank_lt.
+  Qed.
+
+  (** Always nodes: [valueOf] reads through *)
+  Lemma always_shape n : nkind (nd s n) = KAlways ->
+    exists a, decl (nd s n) = [a] /\ (a < n)%nat /\ notLhs s a = true.
+  Proof.
+    intros Hk. destruct (nodes s !! n) as [x|] eqn:E.
+    - pose proof (closed_node _ _ E) as H. rewrite (nd_lookup _ _ _ E) in *.
+      unfold node_closed in H. rewrite Hk in H. apply andb_true_iff in H as [_ H].
+      destruct (decl x) as [|a [|? ?]]; try discriminate H.
+      apply andb_true_iff in H as [H1 H2]. apply Nat.ltb_lt in H1. eauto.
+    - rewrite (nd_none _ _ E) in Hk. discriminate Hk.
+  Qed.
+
+  Lemma valueOf_stable : forall a F, (S a <= F)%nat -> valueOf_ F s a = valueOf_ (S a) s a.
+  Proof.
+    intros a. induction (lt_wf a) as [a _ IH]. intros F HF.
+    destruct F as [|F]; [lia|]. cbn [valueOf_].
+    destruct (nkind (nd s a)) eqn:Hk; try reflexivity.
+    destruct (always_shape _ Hk) as (a' & Hd & Hlt & _). rewrite Hd.
+    rewrite (IH a' Hlt F) by lia. rewrite (IH a' Hlt a) by lia. done.
+  Qed.
+
+  Lemma valueOf_always n a : nkind (nd s n) = KAlways -> decl (nd s n) = [a] -> (a < n)%nat ->
+    valueOf s n = valueOf s a.
+  Proof.
+    intros Hk Hd Hlt. unfold valueOf at 1. cbn [valueOf_]. rewrite Hk, Hd.
+    unfold valueOf. apply valueOf_stable. lia.
+  Qed.
+
+  (** everything known about a registered bind main node *)
+  Definition rkO (r : option nid) : nat := match r with Some x => rank s x | None => 0%nat end.
+  Definition valO (r : option nid) : Z := match r with Some x => valueOf s x | None => 0 end.
+
+  Lemma bindmain_facts n b : R n -> nkind (nd s n) = KBindMain b ->
+    n = S b /\ b_main (bd s b) = n
+    /\ R b /\ (rank s b < rank s n)%nat
+    /\ R (b_lhs (bd s b)) /\ (rank s (b_lhs (bd s b)) < rank s b)%nat /\ notLhs s (b_lhs (bd s b)) = true
+    /\ (forall x, b_rhs (bd s b) = Some x -> R x /\ (rank s x < rank s n)%nat /\ notLhs s x = true)
+    /\ forallb parity_free (b_cases (bd s b)) = true.
+  Proof.
+    intros Hn Hk. destruct (R_some _ Hn) as [x Hx].
+    pose proof (closed_node _ _ Hx) as Hc. pose proof (nd_lookup _ _ _ Hx) as Hnd.
+    unfold node_closed in Hc. rewrite <- Hnd in Hc. rewrite Hk in Hc.
+    apply andb_true_iff in Hc as [_ Hc]. apply andb_true_iff in Hc as [Hc Hc4].
+    apply andb_true_iff in Hc as [Hc Hc3]. apply andb_true_iff in Hc as [Hc1 Hc2].
+    apply bool_decide_eq_true in Hc1, Hc2, Hc3. destruct Hc2 as [rec Hrec].
+    assert (Hbd : bd s b = rec) by (unfold bd; by rewrite Hrec). rewrite Hbd.
+    destruct (wfb_clauses _ Hwf) as (_ & _ & _ & _ & _ & Hbo).
+    pose proof (forallb_gmap _ _ _ _ Hbo Hrec) as Hb. cbv beta iota in Hb.
+    apply andb_true_iff in Hb as [Hb _]. apply andb_true_iff in Hb as [Hb Hb4].
+    apply andb_true_iff in Hb as [Hb Hb3]. apply andb_true_iff in Hb as [Hb1 Hb2].
+    apply bool_decide_eq_true in Hb1, Hb2, Hb3, Hb4. rewrite <- Hc1 in Hb3.
+    assert (Hbin : b ∈ decl (nd s n)) by (rewrite Hb3; destruct (b_rhs rec); left).
+    destruct (decl_R _ _ Hn Hbin) as [HRb Hrb].
+    assert (Hlin : b_lhs rec ∈ decl (nd s b)) by (rewrite Hb4; left).
+    destruct (decl_R _ _ HRb Hlin) as [HRl Hrl].
+    assert (Hnl : notLhs s (b_lhs rec) = true).
+    { destruct (R_some _ HRb) as [xb Hxb]. pose proof (closed_node _ _ Hxb) as Hcb.
+      pose proof (nd_lookup _ _ _ Hxb) as Hndb. unfold node_closed in Hcb.
+      rewrite <- Hndb in Hcb. rewrite Hc3, Hb4 in Hcb. apply andb_true_iff in Hcb as [_ Hcb].
+      simpl in Hcb. by apply andb_true_iff in Hcb as [Hcb _]. }
+    split; [done|]. split; [congruence|]. do 5 (split; [done|]). split.
+    - intros r Hr. rewrite Hr in Hb3.
+      assert (Hrin : r ∈ decl (nd s n)) by (rewrite Hb3; right; left).
+      destruct (decl_R _ _ Hn Hrin) as [HRr Hrr]. do 2 (split; [done|]).
+      rewrite Hb3 in Hc4. simpl in Hc4. by apply andb_true_iff in Hc4 as [Hc4 _].
+    - unfold templates_ok in Htp. exact (forallb_gmap _ _ _ _ Htp Hrec).
+  Qed.
+
+  Lemma decl_notLhs n a : R n -> (forall b, nkind (nd s n) <> KBindMain b) ->
+    a ∈ decl (nd s n) -> notLhs s a = true.
+  Proof.
+    intros Hn Hk Ha. destruct (R_some _ Hn) as [x Hx].
+    pose proof (closed_node _ _ Hx) as Hc. pose proof (nd_lookup _ _ _ Hx) as Hnd.
+    unfold node_closed in Hc. rewrite <- Hnd in Hc. apply andb_true_iff in Hc as [_ Hc].
+    destruct (nkind (nd s n)) eqn:E; try (exact (forallb_elem_of _ _ _ Hc Ha)).
+    - destruct (decl (nd s n)) as [|a' [|? ?]]; try discriminate Hc.
+      apply andb_true_iff in Hc as [_ Hc]. apply elem_of_list_singleton in Ha. by subst.
+    - by destruct (Hk b).
+  Qed.
+
+  (** the two statements proved together by induction on the rank *)
+  Definition P (n : nid) : Prop :=
+    forall F, (rank s n + 1 <= F)%nat -> eval s F n = Some (valueOf s n).
+  Definition Q (n : nid) : Prop :=
+    forall b, nkind (nd s n) = KBindMain b ->
+    forall F F', (rkO (b_rhs (bd s b)) + 1 <= F)%nat -> (rank s n <= F')%nat ->
+    evalT F (eval s F') (valueOf s (b_lhs (bd s b)))
+          (select (b_cases (bd s b)) (valueOf s (b_lhs (bd s b)))) = Some (value (nd s n)).
+
+  (** a template that [matches] an instantiated right-hand side evaluates to its value *)
+  Lemma template_sound K :
+    (forall m, R m -> (rank s m < K)%nat -> notLhs s m = true -> P m /\ Q m) ->
+    forall e fm bx x r, matches fm s bx x e r = true -> parity_free e = true ->
+      (forall r', r = Some r' -> R r' /\ (rank s r' < K)%nat /\ notLhs s r' = true) ->
+      forall F F', (rkO r + 1 <= F)%nat -> (K <= F')%nat ->
+      evalT F (eval s F') x e = Some (valO r).
+  Proof.
+    intros IHK. induction e as [k| |m|f e IHe|f e1 IHe1 e2 IHe2|c e IHe|cases e IHe|];
+      intros fm bx x r Hm Hpf Hr F F' HF HF';
+      (destruct fm as [|fm]; [discriminate Hm|]); (destruct F as [|F]; [lia|]);
+      destruct r as [r|]; cbn [matches] in Hm; try discriminate Hm; cbn [evalT valO];
+      try (destruct (Hr r eq_refl) as (HRr & Hrk & Hnl)); cbn [rkO] in HF.
+    - (* TRet *)
+      apply andb_true_iff in Hm as [Hm _]. apply andb_true_iff in Hm as [Hm1 Hm2].
+      apply bool_decide_eq_true in Hm1. apply Z.eqb_eq in Hm2.
+      rewrite (valueOf_not_always s r) by (rewrite Hm1; discriminate). by rewrite Hm2.
+    - (* TX *)
+      apply andb_true_iff in Hm as [Hm _]. apply andb_true_iff in Hm as [Hm1 Hm2].
+      apply bool_decide_eq_true in Hm1. apply Z.eqb_eq in Hm2.
+      rewrite (valueOf_not_always s r) by (rewrite Hm1; discriminate). by rewrite Hm2.
+    - (* TOuter *)
+      apply bool_decide_eq_true in Hm. subst m.
+      destruct (IHK r HRr Hrk Hnl) as [HP _]. apply HP. lia.
+    - (* TMap *)
+      apply andb_true_iff in Hm as [Hm Hm3]. apply andb_true_iff in Hm as [Hm1 _].
+      apply bool_decide_eq_true in Hm1.
+      destruct (decl (nd s r)) as [|a [|? ?]] eqn:Hd; try discriminate Hm3.
+      assert (Ha : a ∈ decl (nd s r)) by (rewrite Hd; left).
+      destruct (decl_R _ _ HRr Ha) as [HRa Hra].
+      assert (Hna : notLhs s a = true).
+      { apply (decl_notLhs r); [done| |done]. intros b. rewrite Hm1. discriminate. }
+      rewrite (IHe fm bx x (Some a) Hm3 Hpf) with (F' := F'); [| |cbn [rkO]; lia|done].
+      2:{ intros r' [= <-]. repeat split; [done|lia|done]. }
+      destruct (R_cons _ HRr) as [_ Hnc]. unfold node_consistent in Hnc.
+      rewrite Hm1, Hd in Hnc. apply Z.eqb_eq in Hnc.
+      rewrite (valueOf_not_always s r) by (rewrite Hm1; discriminate). cbn [valO]. by rewrite Hnc.
+    - (* TMap2 *)
+      apply andb_true_iff in Hm as [Hm Hm3]. apply andb_true_iff in Hm as [Hm1 _].
+      apply bool_decide_eq_true in Hm1.
+      destruct (decl (nd s r)) as [|a1 [|a2 [|? ?]]] eqn:Hd; try discriminate Hm3.
+      apply andb_true_iff in Hm3 as [Hm3 Hm4].
+      simpl in Hpf. apply andb_true_iff in Hpf as [Hpf1 Hpf2].
+      assert (Ha1 : a1 ∈ decl (nd s r)) by (rewrite Hd; left).
+      assert (Ha2 : a2 ∈ decl (nd s r)) by (rewrite Hd; right; left).
+      destruct (decl_R _ _ HRr Ha1) as [HRa1 Hra1]. destruct (decl_R _ _ HRr Ha2) as [HRa2 Hra2].
+      assert (Hk' : forall b, nkind (nd s r) <> KBindMain b) by (intros b; rewrite Hm1; discriminate).
+      pose proof (decl_notLhs r a1 HRr Hk' Ha1) as Hna1.
+      pose proof (decl_notLhs r a2 HRr Hk' Ha2) as Hna2.
+      rewrite (IHe1 fm bx x (Some a1) Hm3 Hpf1) with (F' := F'); [| |cbn [rkO]; lia|done].
+      2:{ intros r' [= <-]. repeat split; [done|lia|done]. }
+      rewrite (IHe2 fm bx x (Some a2) Hm4 Hpf2) with (F' := F'); [| |cbn [rkO]; lia|done].
+      2:{ intros r' [= <-]. repeat split; [done|lia|done]. }
+      destruct (R_cons _ HRr) as [_ Hnc]. unfold node_consistent in Hnc.
+      rewrite Hm1, Hd in Hnc. apply Z.eqb_eq in Hnc.
+      rewrite (valueOf_not_always s r) by (rewrite Hm1; discriminate). cbn [valO]. by rewrite Hnc.
+    - (* TCut *)
+      apply andb_true_iff in Hm as [Hm Hm3]. apply andb_true_iff in Hm as [Hm1 _].
+      apply bool_decide_eq_true in Hm1.
+      destruct (decl (nd s r)) as [|a [|? ?]] eqn:Hd; try discriminate Hm3.
+      simpl in Hpf. apply andb_true_iff in Hpf as [Hpc Hpf].
+      assert (Ha : a ∈ decl (nd s r)) by (rewrite Hd; left).
+      destruct (decl_R _ _ HRr Ha) as [HRa Hra].
+      assert (Hna : notLhs s a = true).
+      { apply (decl_notLhs r); [done| |done]. intros b. rewrite Hm1. discriminate. }
+      destruct (R_cons _ HRr) as [_ Hnc]. unfold node_consistent in Hnc.
+      rewrite Hm1, Hd in Hnc.
+      rewrite (valueOf_not_always s r) by (rewrite Hm1; discriminate).
+      destruct c; try discriminate Hpc; apply Z.eqb_eq in Hnc; rewrite Hnc; try reflexivity.
+      + rewrite (IHe fm bx x (Some a) Hm3 Hpf) with (F' := F'); [done| |cbn [rkO]; lia|done].
+        intros r' [= <-]. repeat split; [done|lia|done].
+      + rewrite (IHe fm bx x (Some a) Hm3 Hpf) with (F' := F'); [done| |cbn [rkO]; lia|done].
+        intros r' [= <-]. repeat split; [done|lia|done].
+    - (* TBind *)
+      destruct (nkind (nd s r)) as [| | | | | | | |b'] eqn:Hk; try discriminate Hm.
+      apply andb_true_iff in Hm as [Hm Hm4]. apply andb_true_iff in Hm as [Hm _].
+      apply andb_true_iff in Hm as [_ Hm2]. apply texps_eqb_eq in Hm2.
+      simpl in Hpf. apply andb_true_iff in Hpf as [_ Hpf].
+      destruct (bindmain_facts _ _ HRr Hk) as (_ & _ & HRb & Hrb & HRl & Hrl & Hnll & Hrhs & _).
+      rewrite (IHe fm bx x (Some (b_lhs (bd s b'))) Hm4 Hpf) with (F' := F'); [| |cbn [rkO]; lia|done].
+      2:{ intros r' [= <-]. repeat split; [done|lia|done]. }
+      cbn [valO]. destruct (IHK r HRr Hrk Hnl) as [_ HQ]. rewrite <- Hm2.
+      rewrite (HQ b' Hk F F'); [|..].
+      + by rewrite (valueOf_not_always s r) by (rewrite Hk; discriminate).
+      + destruct (b_rhs (bd s b')) as [x'|] eqn:Hx; cbn [rkO].
+        * destruct (Hrhs x' eq_refl) as (_ & Hrx & _). lia.
+        * lia.
+      + lia.
+    - (* TNil *) done.
+  Qed.
+
+  Lemma main_induction K : forall n, R n -> (rank s n < K)%nat -> notLhs s n = true -> P n /\ Q n.
+  Proof.
+    induction K as [|K IHK]; [intros; lia|]. intros n Hn Hr Hnl.
+    assert (Hin : forall a F, a ∈ decl (nd s n) -> notLhs s a = true -> (rank s n <= F)%nat ->
+                              eval s F a = Some (valueOf s a)).
+    { intros a F Ha Hna HF. destruct (decl_R _ _ Hn Ha) as [HRa Hra].
+      destruct (IHK a HRa ltac:(lia) Hna) as [HP _]. apply HP. lia. }
+    destruct (R_cons _ Hn) as [_ Hnc]. unfold node_consistent in Hnc.
+    assert (HQ : Q n).
+    { intros b Hk F F' HF HF'. rewrite Hk in Hnc. apply andb_true_iff in Hnc as [Hv Hm].
+      apply Z.eqb_eq in Hv.
+      destruct (bindmain_facts _ _ Hn Hk) as (_ & _ & HRb & Hrb & HRl & Hrl & Hnll & Hrhs & Hpf).
+      assert (H1 : forall m, R m -> (rank s m < rank s n)%nat -> notLhs s m = true -> P m /\ Q m).
+      { intros m Hm1 Hm2 Hm3. apply IHK; [done|lia|done]. }
+      assert (H2 : parity_free (select (b_cases (bd s b)) (valueOf s (b_lhs (bd s b)))) = true)
+        by (by apply parity_free_select).
+      assert (H3 : forall r', b_rhs (bd s b) = Some r' ->
+                              R r' /\ (rank s r' < rank s n)%nat /\ notLhs s r' = true).
+      { intros r' Hr'. destruct (Hrhs r' Hr') as (? & ? & ?). done. }
+      rewrite (template_sound (rank s n) H1 _ _ _ _ _ Hm H2 H3 F F' HF HF').
+      unfold valO. by rewrite Hv. }
+    split; [|exact HQ].
+    intros F HF. destruct F as [|F]; [lia|]. cbn [eval]. cbv zeta.
+    destruct (nkind (nd s n)) as [eqv| |f|f|f|c| |b|b] eqn:Hk.
+    - by rewrite (valueOf_not_always s n) by (rewrite Hk; discriminate).
+    - by rewrite (valueOf_not_always s n) by (rewrite Hk; discriminate).
+    - destruct (decl (nd s n)) as [|a [|? ?]] eqn:Hd; try discriminate Hnc.
+      apply Z.eqb_eq in Hnc. rewrite (Hin a F); [| | |lia].
+      + rewrite (valueOf_not_always s n) by (rewrite Hk; discriminate). by rewrite Hnc.
+      + left.
+      + apply (decl_notLhs n); [done| |rewrite Hd; left]. intros b. rewrite Hk. discriminate.
+    - destruct (decl (nd s n)) as [|a1 [|a2 [|? ?]]] eqn:Hd; try discriminate Hnc.
+      apply Z.eqb_eq in Hnc.
+      assert (Hk' : forall b, nkind (nd s n) <> KBindMain b) by (intros b; rewrite Hk; discriminate).
+      rewrite (Hin a1 F); [| | |lia].
+      + rewrite (Hin a2 F); [| | |lia].
+        * rewrite (valueOf_not_always s n) by (rewrite Hk; discriminate). by rewrite Hnc.
+        * right; left.
+        * apply (decl_notLhs n); [done|done|rewrite Hd; right; left].
+      + left.
+      + apply (decl_notLhs n); [done|done|rewrite Hd; left].
+    - apply Z.eqb_eq in Hnc.
+      assert (Hk' : forall b, nkind (nd s n) <> KBindMain b) by (intros b; rewrite Hk; discriminate).
+      rewrite (mapM_Some _ (valueOf s)).
+      + rewrite (valueOf_not_always s n) by (rewrite Hk; discriminate). by rewrite Hnc.
+      + intros a Ha. apply Hin; [done| |lia]. by apply (decl_notLhs n).
+    - destruct (decl (nd s n)) as [|a [|? ?]] eqn:Hd; try discriminate Hnc.
+      assert (Hna : notLhs s a = true).
+      { apply (decl_notLhs n); [done| |rewrite Hd; left]. intros b. rewrite Hk. discriminate. }
+      rewrite (valueOf_not_always s n) by (rewrite Hk; discriminate).
+      destruct c; try (apply Z.eqb_eq in Hnc; rewrite Hnc); try reflexivity.
+      + apply Hin; [left|done|lia].
+      + apply Hin; [left|done|lia].
+    - destruct (always_shape _ Hk) as (a & Hd & Hlt & Hna). rewrite Hd.
+      rewrite (valueOf_always n a Hk Hd Hlt). apply Hin; [rewrite Hd; left|done|lia].
+    - unfold notLhs in Hnl. rewrite Hk in Hnl. discriminate Hnl.
+    - destruct (bindmain_facts _ _ Hn Hk) as (_ & _ & HRb & Hrb & HRl & Hrl & Hnll & Hrhs & Hpf).
+      destruct (IHK (b_lhs (bd s b)) HRl ltac:(lia) Hnll) as [HPl _].
+      rewrite (HPl F) by lia. rewrite (HQ b Hk F F); [| |lia].
+      + by rewrite (valueOf_not_always s n) by (rewrite Hk; discriminate).
+      + destruct (b_rhs (bd s b)) as [x'|] eqn:Hx; cbn [rkO].
+        * destruct (Hrhs x' eq_refl) as (_ & Hrx & _). lia.
+        * lia.
+  Qed.
+End TheoremA.
+
+(** ** Theorem A, node form: every registered node that holds a value holds its from-scratch
+    value, for every fuel above [rank s n + 1], which is at most [next s]. *)
+Theorem consistent_registered_eval s :
+  wfb s = true -> closed s = true -> templates_ok s = true -> consistent s = true ->
+  forall n, inGraph (nd s n) = true -> notLhs s n = true ->
+  (rank s n + 1 <= next s)%nat /\
+  forall fuel, (rank s n + 1 <= fuel)%nat -> eval s fuel n = Some (valueOf s n).
+Proof.
+  intros Hwf Hcl Htp Hco n Hn Hnl. split.
+  - by apply rank_bound.
+  - destruct (main_induction s Hwf Hcl Htp Hco (S (rank s n)) n Hn ltac:(lia) Hnl) as [HP _].
+    exact HP.
+Qed.
+
+About some_all.
+Lemma observed_registered s o n :
+  wfb s = true -> closed s = true -> obs s !! o = Some n ->
+  inGraph (nd s n) = true /\ notLhs s n = true.
+Proof.
+  intros Hwf Hcl Ho. destruct (wfb_clauses _ Hwf) as (_ & Hrn & _ & _ & Hob & _).
+  pose proof Hcl as Hcl'. unfold closed in Hcl'. apply andb_true_iff in Hcl' as [_ Hc2].
+  pose proof (forallb_gmap _ _ _ _ Hc2 Ho) as Hnl. cbv beta iota in Hnl.
+  split; [|done].
+  unfold observers_ok in Hob. apply andb_true_iff in Hob as [_ Hob].
+  pose proof (forallb_gmap _ _ _ _ Hob Ho) as Hin. cbv beta iota in Hin.
+  apply bool_decide_eq_true in Hin.
+  assert (Hsome : is_Some (nodes s !! n)).
+  { destruct (nodes s !! n) eqn:E; [eauto|]. rewrite (nd_none _ _ E) in Hin.
+    simpl in Hin. by apply elem_of_nil in Hin. }
+  pose proof (forallb_elem_of _ _ _ Hrn (some_all s Hcl0 _ Hsome)) as H3. cbv beta in H3.
+  assert (Hnec : isNecessary (nd s n) = true).
+  { unfold isNecessary. destruct (observers (nd s n)) eqn:E; [by apply elem_of_nil in Hin|].
+    rewrite (bool_decide_eq_false_2 (_ :: _ = [])) by done. simpl. by rewrite orb_true_r. }
+  rewrite Hnec in H3. by destruct (inGraph (nd s n)).
+Qed.
+
+Theorem C01_consistent_implies_spec_proof s :
+  wfb s = true -> closed s = true -> templates_ok s = true -> consistent s = true ->
+  forall o n, obs s !! o = Some n ->
+  exists fuel, (fuel <= next s)%nat /\
+    forall fuel', (fuel <= fuel')%nat -> eval s fuel' n = Some (valueOf s n).
+Proof.
+  intros Hwf Hcl Htp Hco o n Ho.
+  destruct (observed_registered _ _ _ Hwf Hcl Ho) as [Hn Hnl].
+  destruct (consistent_registered_eval s Hwf Hcl Htp Hco n Hn Hnl) as [Hb He].
+  exists (rank s n + 1)%nat. split; [done|exact He].
+Qed.
+
+Theorem C01_observers_agree_proof s :
+  wfb s = true -> closed s = true -> templates_ok s = true -> consistent s = true ->
+  observers_agree s = true.
+Proof.
+  intros Hwf Hcl Htp Hco. unfold observers_agree. apply forallb_forall.
+  intros [o n] Hin. apply elem_of_list_In, elem_of_map_to_list in Hin.
+  destruct (C01_consistent_implies_spec_proof s Hwf Hcl Htp Hco o n Hin) as (F & HF & He).
+  apply bool_decide_eq_true. apply He. lia.
+Qed.
